@@ -35,7 +35,12 @@ func (q Query) Execute(j *journal.Builder, r *Report) *journal.Processor {
 				ss := q.Universe.Locate(com)
 				level, suffix, ok := q.Mapping.Level(strings.Join(ss, ":"))
 				if ok && level < len(ss)-suffix {
-					ss = append(ss[:level], ss[len(ss)-suffix:]...)
+					// ss is the slice stored in the universe: build the
+					// shortened path in a new slice instead of appending
+					// into it.
+					mapped := make([]string, 0, level+suffix)
+					mapped = append(mapped, ss[:level]...)
+					ss = append(mapped, ss[len(ss)-suffix:]...)
 				}
 				r.Add(ss, d.Date, v/total)
 			}
